@@ -53,6 +53,7 @@ PROPS = {
         "assumptions": DEFS_BY_CODE + [
             "proved: no term of the expression is missing from the result (for every leaf x of the tree the canonical string of x occurs in the result), none is invented (every returned string is the canonical string of some leaf of the tree), and the result is duplicate-free",
             "canonical spelling: the returned string of a term is reconT of its tree (contract of reconstructedLicenseString); that the id inside is the list's spelling is C09",
+            "proved (lemma coveredLeavesSatisfy, structural induction by cvc5): an allowed list that covers every leaf of a tree satisfies it; with matching reflexive (C02 lemmas) the self-satisfaction clause reduces to the round trip 'the canonical string of a term parses back to that term', which is the bounded part",
         ],
     },
     "C07": {
